@@ -125,3 +125,14 @@ func (v *vprimary) digest() string {
 	}
 	return imageDigest(all, v.ps)
 }
+
+// clone returns an independent copy (a fork of the history at the current position) drawing from
+// the same random stream.
+func (v *vprimary) clone() *vprimary {
+	w := *v
+	w.img = append([][]byte{}, v.img...)
+	w.tok = append([]string{}, v.tok...)
+	pp := *v.p
+	w.p = &pp
+	return &w
+}
